@@ -4,3 +4,4 @@ pub mod c03;
 pub mod c05;
 pub mod common;
 pub mod c06;
+pub mod c04;
